@@ -2043,7 +2043,11 @@ unit(name="SrcQGramIndex", props="property C19", file="src/data_structures/qgram
                      ret="QGramIndex", locals={"address": "Vec<usize>", "pos": "Vec<usize>", "offset": "Vec<usize>"},
                      mut_calls={"utils::prescan": dict(lean="prescanAdd", args=["&mut Vec<usize>", "usize", "closure:|a,b|a+b"],
                                                        ret="Vec<usize>")},
-                     theorem="RbV.Thm.GenSrcQGramIndex.withMaxCount_eq_model")])
+                     theorem="RbV.Thm.GenSrcQGramIndex.withMaxCount_eq_model"),
+                dict(name="QGramIndex::qgram_matches", lean="qgramMatches",
+                     header="pub fn qgram_matches(&self, qgram: usize) -> &[usize]",
+                     self_fields=[("address", "Vec<usize>"), ("pos", "Vec<usize>")], params=[("qgram", "usize")],
+                     ret="&[usize]", theorem="RbV.Thm.GenSrcQGramIndex.qgramMatches_eq_model")])
 
 
 # `N: Ord + Clone` is read at `Int` (what the harness drives the tree with; any total order would do), `D` stays generic
